@@ -287,10 +287,16 @@ def wrap_phase(IP, ncycles=1, mode='2pi'):
     if mode not in ['2pi', '-pi2pi']:
         raise ValueError("Invalid mode value")
 
+    period = ncycles * 2 * np.pi
     if mode == '2pi':
-        phases = (IP) % (ncycles * 2 * np.pi)
+        phases = (IP) % period
+        # A value a rounding error below a multiple of the period wraps to
+        # exactly the period - keep the range half-open
+        phases = phases - period * (phases >= period)
     elif mode == '-pi2pi':
-        phases = (IP + (np.pi * ncycles)) % (ncycles * 2 * np.pi) - (np.pi * ncycles)
+        phases = (IP + (np.pi * ncycles)) % period
+        phases = phases - period * (phases >= period)
+        phases = phases - (np.pi * ncycles)
 
     return phases
 
